@@ -2092,6 +2092,88 @@ def unicode_key_checks(chk, ds, rng, n):
     chk.count("header names outside ASCII (reference model and laws, oracle only)", n)
 
 
+class Iter3:
+    """a custom iterable that is not a list, tuple or set"""
+    def __iter__(self):
+        return iter(("i1", "i2", "i3"))
+
+    def __repr__(self):
+        return "Iter3()"
+
+    def __eq__(self, other):
+        return isinstance(other, Iter3)
+
+    __hash__ = None
+
+
+def _value_kinds():
+    """(label, factory) of mapping VALUES: only list / tuple / set are expanded into several values by iter_multi_items and by
+    the constructors; every other value, iterable or not, is ONE value"""
+    import collections
+    return [("list", lambda: ["l1", "l2"]), ("tuple", lambda: ("t1", "t2")), ("set", lambda: {"s1"}), ("empty list", lambda: []),
+            ("dict", lambda: {"x": 1, "y": 2}), ("frozenset", lambda: frozenset({"f"})), ("range", lambda: range(2)),
+            ("deque", lambda: collections.deque(["q1", "q2"])), ("iterator", lambda: iter(["n1", "n2"])),
+            ("generator", lambda: (c for c in "gh")), ("bytes", lambda: b"by"), ("bytearray", lambda: bytearray(b"ba")),
+            ("custom iterable", Iter3), ("str", lambda: "plain"), ("int", lambda: 7), ("None", lambda: None)]
+
+
+def mapping_value_kinds(chk, ds, R):
+    """dict, frozenset, range, deque, iterator, generator, bytes, bytearray and a custom iterable as VALUES of a mapping handed to
+    every entry point that takes one.  MultiDict side (values are arbitrary objects: oracle only): the value is stored as it is,
+    identical object, an iterator not consumed.  Headers side (values are str()-ed): also compared with the model, which sees a
+    scalar."""
+    def expand(v):
+        return list(v) if isinstance(v, MULTI) else [v]
+    kinds = _value_kinds()
+    md_entry = {
+        "MultiDict(m)": lambda m: ds.MultiDict(m),
+        "ImmutableMultiDict(m)": lambda m: ds.ImmutableMultiDict(m),
+        "MultiDict().update(m)": lambda m: (lambda d: (d.update(m), d)[1])(ds.MultiDict()),
+        "MultiDict() | m": lambda m: ds.MultiDict() | m,
+        "MultiDict() |= m": lambda m: ds.MultiDict().__ior__(m),
+        "MultiDict([('k','0')]).update(m)": lambda m: (lambda d: (d.update(m), d)[1])(ds.MultiDict([("k", "0")])),
+        "CombinedMultiDict([MultiDict(m)])": lambda m: ds.CombinedMultiDict([ds.MultiDict(m)]),
+        "MultiDict(iter_multi_items(m))": lambda m: ds.MultiDict(list(ds.iter_multi_items(m))),
+        "TypeConversionDict / dict mapping subclass": lambda m: ds.MultiDict(ds.TypeConversionDict(m)),
+    }
+    for label, make in kinds:
+        for name, fn in md_entry.items():
+            v = make()
+            case = {"kind": "mapping-values", "entry": name, "value": label}
+            try:
+                d = fn({"k": v, "z": "last"})
+                got = d.getlist("k")
+            except Exception as e:  # noqa: BLE001
+                chk.fail("mapping-value-kinds", f"{name} with a {label} value raised {type(e).__name__}: {e}", case)
+                continue
+            base = ["0"] if name.startswith("MultiDict([('k','0')])") else []
+            want = base + expand(make())
+            same = len(got) == len(want) and all((a is v) if not isinstance(v, MULTI) and i == len(base) else
+                                                 (repr(a) == repr(b) if label in ("iterator", "generator") else a == b)
+                                                 for i, (a, b) in enumerate(zip(got, want)))
+            if not same or d.getlist("z") != ["last"]:
+                chk.fail("mapping-value-kinds", f"{name} with the {label} value {make()!r} under k holds {got!r}; list / tuple / set expand, "
+                         f"every other value is one value: expected {want!r}", case)
+            elif label in ("iterator", "generator") and len(list(v)) != 2:
+                chk.fail("mapping-value-kinds", f"{name} consumed the {label} it was given as a value", case)
+        # Headers: through the operation sequences (reference pair list + extracted model)
+        if label in ("iterator", "generator", "None"):
+            continue            # their str() form carries an address / is refused: not a reproducible model line
+        for op in ("extend", "update", "ior"):
+            R.hd(("p", (("k", "0"),)), [(op, ("d", {"k": make(), "z": "last"}))])
+        R.hd(("d", {"k": make()}), [])
+        h = ds.Headers([("k", "0")])
+        try:
+            rv = h | {"k": make()}
+            want = [str(x) for x in expand(make())]
+            if rv.getlist("k") != want:
+                chk.fail("mapping-value-kinds", f"Headers | {{'k': {make()!r}}} holds {rv.getlist('k')!r}, expected {want!r}",
+                         {"kind": "mapping-values", "entry": "Headers | m", "value": label})
+        except Exception as e:  # noqa: BLE001
+            chk.fail("mapping-value-kinds", f"Headers | m with a {label} value raised {type(e).__name__}: {e}", {"kind": "mapping-values", "entry": "Headers | m", "value": label})
+    chk.count("mapping value kinds x entry points", len(kinds) * (len(md_entry) + 5))
+
+
 def heap_shape_checks(chk, ds):
     """the four primitives of the heap model (C08/ProofsCopy.v) on the implementation, by object identity of the rows:
     add appends to the row in place, __setitem__ / setlist / setdefault bind a newly built row (never the caller's list),
@@ -2682,6 +2764,7 @@ def run(chk: Check) -> None:
             chk.fail("multidict-model", f"constructor and update() disagree on {init[1]!r}: {_md_raw(c)!r} vs {_md_raw(u)!r}",
                      {"kind": "md", "init": init, "ops": []})
     request_headers_view(chk, rng, 60 if quick else 1500)
+    mapping_value_kinds(chk, ds, R)
     unicode_key_checks(chk, ds, rng, 400 if quick else 8000)
     heap_shape_checks(chk, ds)
     mutable_value_checks(chk, ds, rng, 40 if quick else 800)
